@@ -118,9 +118,11 @@ def stage_decode(ctx):
 
 SPEC = spec(
     'C09',
-    ['C09_reported_count', 'C09_first_failure_after_success_reports_one', 'C09_exceptions_are_mapped', 'C09_reported_outcome_is_the_mapped_one',
+    ['C09_udp_error_received_is_the_model', 'C09_tcp_error_received_is_the_model',
+     'C09_reported_count', 'C09_first_failure_after_success_reports_one', 'C09_exceptions_are_mapped', 'C09_reported_outcome_is_the_mapped_one',
      'C09_no_exception_in_loop_callbacks', 'C09_loop_exception_is_expressible'],
-    text='Coq theorem C09_reported_count: for every history of request outcomes of any length, the count carried by the '
+    text='Refinement theorems re-proved on every run: the model functions used below ARE the current source of the corresponding synchronous methods of protocol.py (translated by tools/cb2v.py into the statement language of Model/Callbacks.v, fail-closed): error_received. '
+         'Coq theorem C09_reported_count: for every history of request outcomes of any length, the count carried by the '
          'RequestFailedException of a failing request equals the number of failed requests since the last success (model of '
          'Inverter._read_from_socket, compared with the real method on ALL histories up to length 5 (quick) / 7 (thorough) over '
          '{success, RequestFailed, MaxRetries, Rejected}).  C09_no_exception_in_loop_callbacks: NO run of the protocol model (any callers, any I/O / '
